@@ -517,6 +517,33 @@ pub fn run(args: &Args) -> Report {
                 rep.count("whitespace_gap_cases");
             }
         }
+        // long runs: whitespace, unknown members with long strings / numbers / containers
+        {
+            for (n, len) in [(0usize, 300usize), (1, 70_000)] {
+                for gap in (0..ngaps).filter(|g| (g + n) % 3 == 0) {
+                    let mut r = FilterRender::plain(&full);
+                    r.ws = Ws::OneGap { at: gap, bytes: (0..len).map(|k| [0x20u8, 0x09, 0x0a, 0x0d][(k + gap) % 4]).collect() };
+                    let (text, _) = render_filter(&full, &r, &mut rng);
+                    let end = text.len();
+                    let _ = check_in_domain(&mut rep, &text, "long-whitespace-run", end);
+                    rep.count("long_run_cases");
+                }
+            }
+            let big_s = format!("\"{}\"", "s".repeat(70_000));
+            let big_n = "7".repeat(400);
+            let big_a = format!("[{}]", vec!["0"; 5_000].join(","));
+            let big_o = format!("{{{}}}", (0..3_000).map(|k| format!("\"k{k}\":null")).collect::<Vec<_>>().join(","));
+            for (key, val) in [("\"big\"".to_string(), big_s.clone()), (big_s.clone(), "1".to_string()), ("\"n\"".to_string(), big_n), ("\"arr\"".to_string(), big_a), ("\"obj\"".to_string(), big_o)] {
+                for pos in [0usize, 3, 99] {
+                    let mut r = FilterRender::plain(&full);
+                    r.unknown = vec![Unknown { pos, key_text: key.clone().into_bytes(), val_text: val.clone().into_bytes() }];
+                    let (text, _) = render_filter(&full, &r, &mut rng);
+                    let end = text.len();
+                    let _ = check_in_domain(&mut rep, &text, "long-unknown-member", end);
+                    rep.count("long_run_cases");
+                }
+            }
+        }
         for val in nested_gap_texts() {
             for pos in [0usize, 3, 99] {
                 let mut r = FilterRender::plain(&full);
